@@ -63,7 +63,7 @@ def ident(n):
 
 def lean_ty(t):
     return {'Np': 'List Int', 'NpBool': 'List Bool', 'None': 'Unit', 'Str': 'String', 'Set Int': 'List Int',
-            'Parts': 'List (String × Melody)', 'List Str': 'List String'}.get(t, t)
+            'Parts': 'List (String × Melody)', 'List Str': 'List String', 'Metric': 'Rhythm.Metric'}.get(t, t)
 
 
 def ilit(k):
@@ -519,7 +519,10 @@ class FunTr:
             if k not in names:
                 raise Untranslatable(f'{n}: unknown argument {k}')
         if 'wrap' in c:     # the constructor is bound to a model function of its fields
-            vals = {p.split(' := ', 1)[0]: p.split(' := ', 1)[1] for p in parts}
+            vals = {p.split(' := ', 1)[0]: paren(p.split(' := ', 1)[1]) for p in parts}
+            if c['ty'].startswith('Res '):
+                r = c['ty'][4:]
+                return self.bind(B, c['wrap'].format(**vals), 'Res ' + {'Rhythm.Metric': 'Metric'}.get(r, r))
             return c['wrap'].format(**vals), c['ty']
         return '({ ' + ', '.join(parts) + ' } : ' + c['ty'] + ')', c['ty']
 
